@@ -184,6 +184,22 @@ func (br *xmpReader) readTagHeader(parent Tag) (tag Tag, err error) {
 		// Find Start of Tag
 		for ; i < len(buf); i++ {
 			if buf[i] == '<' {
+				// the tag name may lie beyond the end of this window (long white space in front of the tag): look ahead
+				// from the '<' on, as far as the reader's buffer allows; the packet may end before that
+				if len(buf)-i < maxTagHeaderSize {
+					n := i + maxTagHeaderSize
+					if n > br.r.Size() {
+						n = br.r.Size()
+					}
+					if n > len(buf) {
+						// (a Peek invalidates the slice of the previous one; at the end of the packet it returns what is left)
+						buf, _ = br.r.Peek(n)
+					}
+				}
+				if i+1 >= len(buf) {
+					err = errors.Wrap(io.ErrUnexpectedEOF, "Tag Header")
+					return
+				}
 				if buf[i+1] == '/' {
 					tag.t = stopTag
 					i += 2
